@@ -586,7 +586,17 @@ pub fn faults_program(i: u64, sink: &mut ChildSink) {
     let data: Vec<u8> = vec![0x12, 0xff, 0x00, 0x80, 0x5a, 0x01, 0xfe, 0x33, 0xff, 0xff, 0x00, 0x01];
     let raws: [(u8, u8); 8] = [(255, 1), (0, 1), (255, 1), (127, 2), (254, 1), (255, 1), (0, 255), (128, 128)];
     let desc = move || format!("program #{prog} over a user-written backend with fault mode {mode} (0 = Err once, 1 = Err from then on, 2 = lies once, 3 = none) at call #{k}");
-    hostile(sink, i, "coders over a user-written backend that fails or lies", desc, || {
+    // a backend that merely FAILS is an advertised use (fallible backends): overflow panics inside the library count;
+    // for a backend that LIES only memory safety is demanded
+    let judge = |sink: &mut ChildSink, f: &mut dyn FnMut()| {
+        if mode == 2 {
+            sink.count("hostile_programs", 1);
+            match guarded(|| f()) { Outcome::Value(()) => sink.count("programs_ending_in_a_value_or_error", 1), _ => sink.count("programs_ending_in_a_clean_panic", 1) }
+        } else {
+            hostile(sink, i, "coders over a user-written backend that fails", &desc, || f());
+        }
+    };
+    judge(sink, &mut || {
         DEFAULT_FAULT.with(|d| d.set((mode, k)));
         let part = Part::<u8, 8> { c: 100, p: 57 };
         let part4 = Part::<u8, 4> { c: 5, p: 9 };
